@@ -608,6 +608,7 @@ class Child:
         self.last = None
         self.final = None
         self.tx = ""      # Connection.in_transaction reported with the last message ("y" / "n" / "")
+        self.cursor = False   # the worker keeps a get_all_pages() cursor (a read transaction) open while it works
 
 
 def spawn_one(idx: int, dbdir: str, order: list, cursor: bool, mode: str, seed: int, offset: float, fds: list,
@@ -630,7 +631,9 @@ def spawn_one(idx: int, dbdir: str, order: list, cursor: bool, mode: str, seed: 
     os.close(c2p_w)
     os.close(p2c_r)
     fds += [c2p_r, p2c_w]
-    return Child(idx, pid, c2p_r, p2c_w)
+    ch = Child(idx, pid, c2p_r, p2c_w)
+    ch.cursor = bool(cursor)
+    return ch
 
 
 def spawn(n: int, dbdir: str, orders: list, cursor, mode: str, seed: int, offsets: list, fds=None, lives=None) -> list:
@@ -768,11 +771,15 @@ def step(kids, c: Child, tracked, trace, sched_label=None, timeout=9.0):
 
 
 def lock_holders(kids, c: Child) -> list:
-    """Workers parked at a schedule point INSIDE a library call whose connection is inside a transaction and whose next
-    operation is NOT the commit (the real code keeps its transaction open across more operations than the model, which
-    writes and commits; a holder parked right before its commit is where the model's schedules put it on purpose):
-    they hold the write lock in a critical section that ends when they are allowed to go on."""
-    return [h for h in kids if h is not c and h.state == "want" and h.tx == "y" and h.want["cls"] not in ("close", "commit")]
+    """Workers parked at a schedule point INSIDE a library call whose connection is inside a transaction, seen from a
+    writer c that can wait: they hold the write lock in a critical section that ends when they are allowed to go on.
+    The model never schedules such a writer while the lock is held (Insert is not enabled), so this only happens when
+    the real code keeps its transaction open across more operations than the model.  A writer that holds a read
+    transaction (open cursor) cannot wait - SQLite fails it at once - and the model's schedules put it beside a holder on
+    purpose: no holders for it."""
+    if c.cursor:
+        return []
+    return [h for h in kids if h is not c and h.state == "want" and h.tx == "y" and h.want["cls"] != "close"]
 
 
 def waited_write(kids, c: Child, hs: list, tracked, trace, sched_label=None):
